@@ -1,4 +1,4 @@
-from typing import List
+from typing import Dict, List, Optional
 
 from pddl_plus_parser.models import (
     Problem,
@@ -7,6 +7,7 @@ from pddl_plus_parser.models import (
     Domain,
     Operator,
     NOP_ACTION,
+    PDDLObject,
 )
 
 
@@ -30,6 +31,7 @@ def apply_actions(
     current_state: State,
     joint_action: List[ActionCall],
     allow_inapplicable_actions: bool = False,
+    problem_objects: Optional[Dict[str, PDDLObject]] = None,
 ) -> State:
     """
 
@@ -37,13 +39,17 @@ def apply_actions(
     :param current_state: the current state that the action is being applied on.
     :param joint_action: the executable actions of the agents.
     :param allow_inapplicable_actions: whether to allow inapplicable actions.
+    :param problem_objects: the objects of the problem (needed to apply universal effects).
     :return: The state resulting from applying the actions.
     """
     if len(joint_action) == 1:
         action_call = joint_action[0]
         action = domain.actions[action_call.name]
         return Operator(
-            action=action, domain=domain, grounded_action_call=action_call.parameters
+            action=action,
+            domain=domain,
+            grounded_action_call=action_call.parameters,
+            problem_objects=problem_objects,
         ).apply(
             previous_state=current_state,
             allow_inapplicable_actions=allow_inapplicable_actions,
@@ -56,7 +62,10 @@ def apply_actions(
 
         action = domain.actions[action_call.name]
         operator = Operator(
-            action=action, domain=domain, grounded_action_call=action_call.parameters
+            action=action,
+            domain=domain,
+            grounded_action_call=action_call.parameters,
+            problem_objects=problem_objects,
         )
         if operator.is_applicable(current_state) or allow_inapplicable_actions:
             accumulative_changed_state = operator.apply(
